@@ -175,6 +175,81 @@ def phase_interleave(args):
         loop.dispose()
 
 
+def phase_sendrecv(args):
+    """(iv) sends to a unicast peer and to the multicast group interleaved with SD datagrams *received*
+    from that peer (normal and with reboot evidence, on both channels): receiving must not disturb the
+    outgoing numbering.  BFS over the joint (outgoing, incoming) tables, from shortly before the wrap."""
+    seed, nsend = args
+    loop = VLoop().install()
+    viols = []
+    try:
+        prot = make_sd(loop)
+        model = Model()
+        start = 0xFFFF - 2
+        for _ in range(start - 1):
+            got = send_and_decode(prot, P1)
+            want = [(P1,) + model.take(P1) + (1,)]
+            if got != want:
+                return dict(phase="sendrecv", states=0, transitions=0, viols=[("sequence", "id", f"positioning: {got} != {want}", None)], nviols=1)
+        letters = [("send", P1), ("send", None)] + [("recv", mc, flag, sid) for mc in (False, True) for flag in (0, 1) for sid in (1, 2, 7)]
+
+        def snap():
+            ss = prot.session_storage
+            return (tuple(sorted(ss.outgoing.items(), key=repr)), tuple(sorted(ss.incoming.items(), key=repr)))
+
+        def rest(st):
+            ss = prot.session_storage
+            ss.outgoing.clear()
+            ss.outgoing.update(dict(st[0]))
+            ss.incoming = dict(st[1])
+
+        init = (snap(), (0, 0))
+        seen = {init: model}
+        frontier = [init]
+        transitions = 0
+        depth = 0
+        while frontier and depth < 7:
+            depth += 1
+            nxt = []
+            for node in frontier:
+                st, (np1, nm) = node
+                mod = seen[node]
+                for letter in letters:
+                    rest(st)
+                    m2 = mod.copy()
+                    pos = (np1, nm)
+                    if letter[0] == "send":
+                        d = letter[1]
+                        if (np1 if d == P1 else nm) >= nsend:
+                            continue
+                        got = send_and_decode(prot, d)
+                        want = [((MCAST if d is None else d),) + m2.take(d) + (1,)]
+                        transitions += 1
+                        if got != want:
+                            disc = "flag-after-receive" if got and got[0][2] == want[0][2] else "id-after-receive"
+                            viols.append(("sequence", disc, f"send to {d} after receptions: got {got} want {want}", None))
+                        pos = (np1 + (d == P1), nm + (d is None))
+                    else:
+                        _, mc, flag, sid = letter
+                        data = refcodec.sd_message(sid, [("find", 0x4242, 0xFFFF, 0xFF, 3, 0xFFFFFFFF, (), ())], reboot=bool(flag))
+                        n0 = len(prot.transport.sent)
+                        prot.datagram_received(data, P1, mc)
+                        loop.settle()
+                        del prot.transport.sent[n0:]
+                        transitions += 1
+                    nn = (snap(), pos)
+                    if nn not in seen:
+                        seen[nn] = m2
+                        nxt.append(nn)
+                    if len(viols) > 30:
+                        break
+            frontier = nxt
+        return dict(phase="sendrecv", states=len(seen), transitions=transitions, viols=viols[:30], nviols=len(viols),
+                    depth=depth, closure=not frontier)
+    finally:
+        loop.dispose()
+
+
 def make_service(loop):
     class S(svc.SimpleService):
         service_id = 0x1234
@@ -235,11 +310,13 @@ def phase_notify(args):
 
 def _run(job):
     kind, args = job
-    return {"cycle": phase_cycle, "interleave": phase_interleave, "notify": phase_notify}[kind](args)
+    return {"cycle": phase_cycle, "interleave": phase_interleave, "notify": phase_notify,
+            "sendrecv": phase_sendrecv}[kind](args)
 
 
 def check(ctx):
-    jobs = [("cycle", (ctx.seed, 20)), ("interleave", (ctx.seed, 3, 6)), ("notify", (ctx.seed, 8200))]
+    jobs = [("cycle", (ctx.seed, 20)), ("interleave", (ctx.seed, 3, 6)), ("notify", (ctx.seed, 8200)),
+            ("sendrecv", (ctx.seed, ctx.pick(4, 6)))]
     if ctx.thorough:
         jobs += [("interleave", (ctx.seed, 4, 8)), ("interleave", (ctx.seed + 1, 2, 12)),
                  ("notify", (ctx.seed, 17000))]
